@@ -118,7 +118,7 @@ Proof.
   - split; [lia|]. split; [constructor|left; reflexivity].
   - destruct (IH (Z.max a x)) as (H1 & H2 & H3). split; [lia|]. split; [constructor; [lia|exact H2]|].
     destruct H3 as [H3|H3]; [|right; right; exact H3].
-    destruct (Z.max_spec a x) as [[_ E]|[_ E]]; rewrite E in H3; [right; left|left]; exact H3.
+    rewrite <- H3. destruct (Z.max_spec a x) as [[_ E]|[_ E]]; rewrite E; [right; left|left]; reflexivity.
 Qed.
 
 Lemma ctor_loop_accepts base : forall rest lg ld,
@@ -127,7 +127,7 @@ Lemma ctor_loop_accepts base : forall rest lg ld,
   Ret (fold_left Z.max (map (fun ic => si_LAGS (snd ic)) rest) lg, fold_left Z.max (map (fun ic => si_LEADS (snd ic)) rest) ld).
 Proof.
   induction rest as [|[i c] r IH]; intros lg ld H; cbn [ctor_loop map fold_left]; [reflexivity|].
-  rewrite (H (i, c)) by (left; reflexivity). apply IH. intros ic Hi. apply H. right. exact Hi.
+  pose proof (H (i, c) (or_introl eq_refl)) as Hc. cbn [snd] in Hc. rewrite Hc. apply IH. intros ic Hi. apply H. right. exact Hi.
 Qed.
 
 Lemma ctor_loop_rejects base : forall rest lg ld,
@@ -265,8 +265,8 @@ Section Single.
   Proof.
     intros Hs. unfold Linker.iter_step. rewrite run_id_hook, put_jv_S1.
     cbn [Linker.eval_subs S1 l_subs Linker.find_sub]. rewrite Nat.eqb_refl. cbn [c_st vals_of]. rewrite Hs.
-    cbn [Linker.with_cvals c_desc c_st status iters log]. rewrite bump_iter_S1.
-    cbn [l_core l_log Linker.put_sub]. rewrite Nat.eqb_refl.
+    unfold Linker.with_cvals. cbn [c_desc c_st status iters log vals_of]. rewrite bump_iter_S1.
+    cbn [S1 l_core l_log Linker.put_sub]. rewrite Nat.eqb_refl.
     change (mkL core1 [(id, mkComp d (mkState v' ms (upd p (x + 1) mi) ml))] ((lg' ++ [LBefore t k]) ++ [LSub id t k]))
       with (S1 v' ms (upd p (x + 1) mi) ((lg' ++ [LBefore t k]) ++ [LSub id t k])).
     rewrite run_id_hook, put_jv_S1. unfold iter_events. cbn [l_log S1 map app]. rewrite <- !app_assoc. reflexivity.
@@ -348,7 +348,7 @@ Section Single.
            [(id, mkComp d (mkState v (upd p x ms) it ml))] lg',
        if st_eqb x Failed && fail_raise o then LRaise (LExn NonConvergenceError) else LRet (st_eqb x Solved)).
     Proof.
-      cbn [Linker.lfinish S1 l_core l_subs l_log core1]. unfold Linker.set_status. cbn [c_st status c_desc vals_of iters log].
+      unfold S1, core1. cbn [Linker.lfinish l_core l_subs l_log]. unfold Linker.set_status. cbn [c_st status c_desc vals_of iters log].
       rewrite (py_set_pos cs t p x Hcs). unfold Linker.set_iter. cbn [c_st status c_desc vals_of iters log].
       rewrite (py_set_pos ci t p _ Hci_pos). cbn [Linker.stamp_subs Linker.find_sub]. rewrite Nat.eqb_refl.
       unfold Linker.set_status. cbn [c_st status c_desc vals_of iters log]. rewrite (py_set_pos ms t p x Hms).
